@@ -2,7 +2,13 @@ module verif/harness
 
 go 1.23
 
-require github.com/nlnwa/whatwg-url v0.0.0
+require (
+	github.com/nlnwa/whatwg-url v0.0.0
+	golang.org/x/net v0.34.0
+	golang.org/x/text v0.21.0
+)
+
+require github.com/bits-and-blooms/bitset v1.20.0 // indirect
 
 // Development default only: every check builds with -modfile pointing at a go.mod whose replace
 // directive names the freshly instrumented scratch copy of /repo (see /verif/check).
